@@ -53,17 +53,30 @@ def build_pomdp(c):
     ai = {x: i for i, x in enumerate(la)}
     assert len(si) == nS and len(ai) == nA and len(set(lo)) == nO
 
+    if c.get("int_rewards"):      # integer-typed rewards where the value is integral
+        Rw = [[[int(x) if x == int(x) else x for x in row] for row in sa] for sa in Rw]
+    shared = bool(c.get("shared_objects"))
+    la_shared = list(la)          # ONE mutable list object handed out by actions(s) for every state
+    dist_cache = {}               # ONE distribution object per (s, a) / (a, ns) / initial, handed out on every call
+
+    def cached(key, mk):
+        if not shared:
+            return mk()
+        if key not in dist_cache:
+            dist_cache[key] = mk()
+        return dist_cache[key]
+
     class GenPOMDP(TabularPOMDP):
         discount_rate = gamma
 
         def initial_state_dist(self):
-            return DictDistribution({ls[s]: p for s, p in enumerate(s0) if p > 0})
+            return cached("init", lambda: DictDistribution({ls[s]: p for s, p in enumerate(s0) if p > 0}))
 
         def actions(self, s):
-            return tuple(la)
+            return la_shared if shared else tuple(la)
 
         def next_state_dist(self, s, a):
-            return DictDistribution({ls[t]: p for t, p in enumerate(T[si[s]][ai[a]]) if p > 0})
+            return cached(("T", s, a), lambda: DictDistribution({ls[t]: p for t, p in enumerate(T[si[s]][ai[a]]) if p > 0}))
 
         def reward(self, s, a, ns):
             return Rw[si[s]][ai[a]][si[ns]]
@@ -72,9 +85,25 @@ def build_pomdp(c):
             return absorbing[si[s]]
 
         def observation_dist(self, a, ns):
-            return DictDistribution({lo[o]: p for o, p in enumerate(Ob[ai[a]][si[ns]]) if p > 0})
+            return cached(("O", a, ns), lambda: DictDistribution({lo[o]: p for o, p in enumerate(Ob[ai[a]][si[ns]]) if p > 0}))
 
     pomdp = GenPOMDP()
+
+    def caller_objects_intact():
+        """the caller's shared objects still hold what they held when they were handed out"""
+        if la_shared != list(la):
+            return "actions list"
+        for key, d in dist_cache.items():
+            if key == "init":
+                want = {ls[s]: p for s, p in enumerate(s0) if p > 0}
+            elif key[0] == "T":
+                want = {ls[t]: p for t, p in enumerate(T[si[key[1]]][ai[key[2]]]) if p > 0}
+            else:
+                want = {lo[o]: p for o, p in enumerate(Ob[ai[key[1]]][si[key[2]]]) if p > 0}
+            if dict(d.items()) != want:
+                return "distribution object " + repr(key)
+        return None
+    pomdp._caller_objects_intact = caller_objects_intact
     if c.get("explicit_lists"):
         # explicit lists (in generator order, which need not be the sorted order of the labels):
         # states unreachable from the initial distribution stay in the model
@@ -151,6 +180,15 @@ def do_runs(pomdp, ctrl, c, nodes):
         o["max_steps"] = cap
         o["ag0"] = fjn(ag0) if ag0 is not None else None
         trajs.append(o)
+    if c.get("long_run"):
+        # an episode far beyond 1000 steps (unless it is absorbed earlier)
+        cap = int(c["long_run"])
+        s0 = sl[0]
+        tr = ctrl.run_on(pomdp, initial_state=s0, max_steps=cap, rng=random.Random(int(c.get("run_seed", 0))))
+        o = traj_out(pomdp, tr, s0)
+        o["max_steps"] = cap
+        o["ag0"] = None
+        trajs.append(o)
     return trajs
 
 
@@ -176,6 +214,18 @@ def fjn(a):
     return rec(a.tolist())
 
 
+def hist_prob(ctrl, h):
+    """probability the controller object gives to the actions of history h (driven as run_on drives it): the EXACT
+    product of the doubles action_dist returns, as [numerator, denominator]"""
+    from fractions import Fraction
+    ag = ctrl.initial_agentstate()
+    pr = Fraction(1)
+    for (a, o) in h:
+        pr *= Fraction(float(ctrl.action_dist(ag).prob(a)))
+        ag = ctrl.next_agentstate(ag, a, o)
+    return [pr.numerator, pr.denominator]
+
+
 def run_eval(c):
     import numpy as np, torch
     from msdm.algorithms.fscgradientascent import stochastic_fsc_policy_evaluation_exact
@@ -184,14 +234,19 @@ def run_eval(c):
     out = lists(pomdp)
     f = c["fsc"]
     pi, om, ini = nd(f["pi"]), nd(f["om"]), nd(f["init"])
+    snap = (pi.copy(), om.copy(), ini.copy())
+    mutated = []
     try:
         # the evaluator's accepted input forms: node transitions 4-d p(n'|n,a,o) or 3-d p(n'|n,o);
         # with or without fsc_initial_state; dtype
         dt = getattr(torch, c.get("eval_dtype", "float64"))
         om_in = nd(f["om3"]) if c.get("om_form") == "3d" else om
         tpi, tom, tini = torch.tensor(pi, dtype=dt), torch.tensor(om_in, dtype=dt), torch.tensor(ini, dtype=dt)
+        tsnap = (tpi.clone(), tom.clone(), tini.clone())
         r = stochastic_fsc_policy_evaluation_exact(pomdp, tpi, tom, fsc_initial_state=tini, dtype=dt)
         r0 = stochastic_fsc_policy_evaluation_exact(pomdp, tpi, tom, dtype=dt)
+        if not (torch.equal(tpi, tsnap[0]) and torch.equal(tom, tsnap[1]) and torch.equal(tini, tsnap[2])):
+            mutated.append("evaluator changed the strategy tensors it was given")
         out["eval"] = {"V": fjn(_np(r.state_controller_value)),
                        "state_value": fjn(_np(r.state_value)),
                        "expected_value": fj(float(r.expected_value)),
@@ -211,12 +266,7 @@ def run_eval(c):
         for L in range(1, int(c.get("hist_len", 3)) + 1):
             probs = []
             for h in itertools.product(steps, repeat=L):
-                ag = ctrl.initial_agentstate()
-                pr = 1.0
-                for (a, o) in h:
-                    pr = pr * float(ctrl.action_dist(ag).prob(a))
-                    ag = ctrl.next_agentstate(ag, a, o)
-                probs.append(fj(pr))
+                probs.append(hist_prob(ctrl, h))
             hist[str(L)] = probs
         out["hist"] = hist
     except BaseException as e:
@@ -226,15 +276,11 @@ def run_eval(c):
     # the same controller built from torch tensors (the form gradient ascent returns)
     try:
         ctrl_t = StochasticFiniteStateController(pomdp, torch.tensor(pi), torch.tensor(om), torch.tensor(ini))
-        probs = []
-        for h in itertools.product(steps, repeat=2):
-            ag = ctrl_t.initial_agentstate()
-            pr = 1.0
-            for (a, o) in h:
-                pr = pr * float(ctrl_t.action_dist(ag).prob(a))
-                ag = ctrl_t.next_agentstate(ag, a, o)
-            probs.append(fj(pr))
-        out["hist_torch2"] = probs
+        out["hist_torch2"] = [hist_prob(ctrl_t, h) for h in itertools.product(steps, repeat=2)]
+        if c.get("int_object") and all(float(x) in (0.0, 1.0) for x in np.concatenate([pi.ravel(), om.ravel(), ini.ravel()])):
+            # integer-typed tables (a deterministic controller written with 0/1 ints)
+            ctrl_i = StochasticFiniteStateController(pomdp, pi.astype(np.int64), om.astype(np.int64), ini.astype(np.int64))
+            out["hist_int2"] = [hist_prob(ctrl_i, h) for h in itertools.product(steps, repeat=2)]
     except BaseException as e:
         if isinstance(e, (KeyboardInterrupt, SystemExit)):
             raise
@@ -247,6 +293,12 @@ def run_eval(c):
             raise
         import traceback
         out["runs"] = {"error": type(e).__name__ + ": " + str(e)[:300], "trace": traceback.format_exc()[-800:]}
+    if not (np.array_equal(pi, snap[0]) and np.array_equal(om, snap[1]) and np.array_equal(ini, snap[2])):
+        mutated.append("controller object changed the strategy arrays it was given")
+    why = getattr(pomdp, "_caller_objects_intact", lambda: None)()
+    if why:
+        mutated.append("POMDP definition object changed: " + why)
+    out["mutated"] = mutated
     return out
 
 
@@ -287,8 +339,11 @@ def run_bpi(c):
         learner = B.FSCBoundedPolicyIteration(controller_state_count=int(c["nodes"]), iterations=int(c["iterations"]),
                                               seed=int(c["seed"]), improve_node_fn=rec_lp)
         if c.get("pomdp_prev"):
-            # object reuse: the same learner first trained on another POMDP (same labels, other numbers)
-            learner.train_on(build_pomdp(c["pomdp_prev"]))
+            # object reuse: the same learner first trained on another POMDP (same labels, other numbers, possibly other sizes)
+            first = learner.train_on(build_pomdp(c["pomdp_prev"]))
+            first_snap = [np.array(_np(x)) for x in (first.policy.action_strategy, first.policy.observation_strategy,
+                                                     first.policy.initial_state_dist, first.state_controller_value)]
+            first_val = float(first.value)
             del evals[:]
             del lps[:]
         if c.get("prefix"):
@@ -315,6 +370,11 @@ def run_bpi(c):
         out["result"] = {"pi": fjn(pol.action_strategy), "om": fjn(pol.observation_strategy),
                          "init": fjn(pol.initial_state_dist), "value": fj(res.value),
                          "V": fjn(res.state_controller_value), "converged": bool(res.converged)}
+        if c.get("pomdp_prev"):
+            # the FIRST call's result re-read after the second call
+            now = [np.array(_np(x)) for x in (first.policy.action_strategy, first.policy.observation_strategy,
+                                              first.policy.initial_state_dist, first.state_controller_value)]
+            out["first_result_changed"] = not (all(np.array_equal(a, b) for a, b in zip(first_snap, now)) and float(first.value) == first_val)
         try:
             out["runs"] = do_runs(pomdp, pol, c, len(pol.action_strategy))
         except BaseException as e:
@@ -330,6 +390,8 @@ def run_bpi(c):
         B.stochastic_fsc_policy_evaluation_exact = orig_eval
     out["evals"] = evals
     out["lps"] = lps
+    why = getattr(pomdp, "_caller_objects_intact", lambda: None)()
+    out["mutated"] = ["POMDP definition object changed: " + why] if why else []
     return out
 
 
@@ -348,9 +410,16 @@ def run_ga(c):
         learner = FSCGradientAscent(controller_state_count=int(c["nodes"]), iterations=int(c["iterations"]),
                                     learning_rate=fl(c.get("learning_rate", "1/10")), seed=int(c["seed"]),
                                     dtype=dtype, **kw)
+        first = None
         if c.get("pomdp_prev"):
-            learner.train_on(build_pomdp(c["pomdp_prev"]))     # object reuse
+            first = learner.train_on(build_pomdp(c["pomdp_prev"]))     # object reuse
+            first_snap = [np.array(_np(x)) for x in (first.policy.action_strategy, first.policy.observation_strategy,
+                                                     first.policy.initial_state_dist, first.value.state_controller_value)]
         res = learner.train_on(pomdp)
+        if first is not None:
+            now = [np.array(_np(x)) for x in (first.policy.action_strategy, first.policy.observation_strategy,
+                                              first.policy.initial_state_dist, first.value.state_controller_value)]
+            out["first_result_changed"] = not all(np.array_equal(a, b) for a, b in zip(first_snap, now))
         pol = res.policy
         np_ = _np
         out["result"] = {"pi": fjn(np_(pol.action_strategy)), "om": fjn(np_(pol.observation_strategy)),
@@ -368,6 +437,8 @@ def run_ga(c):
             raise
         import traceback
         out["result"] = {"error": type(e).__name__ + ": " + str(e)[:300], "trace": traceback.format_exc()[-1200:]}
+    why = getattr(pomdp, "_caller_objects_intact", lambda: None)()
+    out["mutated"] = ["POMDP definition object changed: " + why] if why else []
     return out
 
 
